@@ -125,8 +125,8 @@ def sel_index(model, name, n):
     return 0
 
 
-def world_for(k, seed_ids=None):
-    return World(k, 'named', concrete_ids=seed_ids)
+def world_for(k, seed_ids=None, kind='named'):
+    return World(k, kind, concrete_ids=seed_ids)
 
 
 def table_env(I, mode=None):
@@ -381,7 +381,7 @@ def run_op_unit(spec_name, k, opts):
     I = load('lib', opts.get('config'))
     if opts.get('mutate'):
         apply_mir_mutation(I, opts['mutate'])
-    w = world_for(k, opts.get('ids'))
+    w = world_for(k, opts.get('ids'), opts.get('kind', 'named'))
     env, mem = table_env(I, opts.get('table_mode'))
     b = spec(I, w, k, opts)
     if opts.get('summaries') or opts.get('inductive'):
